@@ -19,6 +19,7 @@ Full(Cs) ==
   \cup {Op("STATICCALL", t, "-", "-", 0) : t \in Cs \cup {"N", "P2", "P3", "PFE"}}
   \cup {Op(c, t, w, "-", 0) : c \in {"CALL", "CALLCODE", "DELEGATECALL", "STATICCALL"}, t \in Cs, w \in {"32", "64"}}
   \cup {Op(c, t, "64", "-", 0) : c \in {"CALL", "CALLCODE", "DELEGATECALL", "STATICCALL"}, t \in {"N", "P2", "P4", "P6", "P8"}}
+  \cup {Op("EXTCODEHASH", t, k, "-", 0) : t \in Cs \cup {"S", "N", "P2", "PFE"}, k \in {"-", "1"}}
   \cup {Op("CREATE", t, "-", "-", val) : t \in Cs, val \in {0, 1}}
   \cup {Op("CREATE2", t, "-", "-", 0) : t \in Cs}
   \cup {Op("SELFDESTRUCT", t, "-", "-", 0) : t \in {"S", "N", "self"}}
@@ -43,6 +44,14 @@ Window ==
         Op("STATICCALL", "N", "64", "-", 0), Op("SSTORE", "-", "0", "w1", 0), Op("SSTORE", "-", "1", "w2", 0),
         Op("SETACC", "-", "-", "1", 0)}
   \cup Plain({"RETURN", "REVERT", "INVALID"})
+
+\* account inspection after the account was touched / funded / destroyed in the same transaction
+Inspect ==
+       {Op("CALL", "P2", "-", "-", 0), Op("CALL", "P2", "-", "-", 1), Op("STATICCALL", "P2", "-", "-", 0), Op("CALL", "N", "-", "-", 0),
+        Op("CALL", "N", "-", "-", 1), Op("CALL", "B", "-", "-", 0), Op("SELFDESTRUCT", "N", "-", "-", 0),
+        Op("EXTCODEHASH", "P2", "0", "-", 0), Op("EXTCODEHASH", "N", "1", "-", 0), Op("EXTCODEHASH", "B", "0", "-", 0),
+        Op("EXTCODEHASH", "S", "1", "-", 0), Op("EXTCODEHASH", "N", "-", "-", 0)}
+  \cup Plain({"RETURN", "REVERT"})
 
 \* recursion into the depth limit (Entry = "tramp")
 Deep ==
